@@ -1843,6 +1843,15 @@ class _FoldConst(ast.NodeTransformer):
         node = self._getattr(node)
         if not isinstance(node, ast.Call):
             return node
+        # the special methods spelled out: m.__getitem__(k) is m[k], m.__contains__(k) is k in m, m.__len__() is len(m)
+        if isinstance(node.func, ast.Attribute) and not node.keywords and not any(isinstance(a, ast.Starred) for a in node.args) \
+                and not (isinstance(node.func.value, ast.Call) and u(node.func.value.func) == "super") and not (isinstance(node.func.value, ast.Name) and node.func.value.id[:1].isupper()):
+            if node.func.attr == "__getitem__" and len(node.args) == 1:
+                return ast.copy_location(ast.Subscript(value=node.func.value, slice=node.args[0], ctx=ast.Load()), node)
+            if node.func.attr == "__contains__" and len(node.args) == 1:
+                return ast.copy_location(ast.Compare(left=node.args[0], ops=[ast.In()], comparators=[node.func.value]), node)
+            if node.func.attr == "__len__" and not node.args:
+                return ast.copy_location(ast.Call(func=ast.Name(id="len", ctx=ast.Load()), args=[node.func.value], keywords=[]), node)
         # next((E for ROW in <literal table> if C), D): the first row whose test holds, written out as a chain of conditional expressions
         if isinstance(node.func, ast.Name) and node.func.id == "isinstance" and len(node.args) == 2 and not node.keywords and u(node.args[1]) == "object" \
                 and norm.is_pure(node.args[0], _PURE_EXT):
@@ -3061,17 +3070,22 @@ class Canon:
         an object cannot rebind them, it can only change what the attribute's value contains"""
         ctor, other = set(), set()
 
-        def scan(node, in_ctor):
+        def scan(node, in_ctor, fresh=frozenset()):
             for ch in ast.iter_child_nodes(node):
                 if isinstance(ch, (ast.FunctionDef, ast.AsyncFunctionDef)):
-                    scan(ch, ch.name in ("__init__", "__post_init__", "__new__"))
+                    # an alternative constructor fills in an object it has just made with X.__new__(X): those stores build, they do not rebind
+                    made = frozenset(n.targets[0].id for n in ast.walk(ch) if isinstance(n, ast.Assign) and len(n.targets) == 1 and isinstance(n.targets[0], ast.Name)
+                                     and isinstance(n.value, ast.Call) and isinstance(n.value.func, ast.Attribute) and n.value.func.attr == "__new__")
+                    made = frozenset(x for x in made if sum(1 for n in ast.walk(ch) if isinstance(n, ast.Name) and n.id == x and isinstance(n.ctx, ast.Store)) == 1)
+                    scan(ch, ch.name in ("__init__", "__post_init__", "__new__"), made)
                     continue
                 if isinstance(ch, ast.Attribute) and isinstance(ch.ctx, (ast.Store, ast.Del)):
-                    (ctor if in_ctor else other).add(ch.attr)
+                    built = in_ctor or (isinstance(ch.value, ast.Name) and ch.value.id in fresh and isinstance(ch.ctx, ast.Store))
+                    (ctor if built else other).add(ch.attr)
                 if isinstance(ch, ast.Call) and u(ch.func) in ("setattr", "object.__setattr__", "delattr"):
                     a = ch.args[1] if len(ch.args) > 1 else None
                     other.add(a.value if isinstance(a, ast.Constant) and isinstance(a.value, str) else "*")
-                scan(ch, in_ctor)
+                scan(ch, in_ctor, fresh)
         for m in self.prog.modules.values():
             scan(m.tree, False)
         return set() if "*" in other else ctor - other
@@ -4704,7 +4718,9 @@ class Canon:
         class L(ast.NodeTransformer):
             def visit_Call(self, node):
                 self.generic_visit(node)
-                if not node.keywords or any(k.arg is None for k in node.keywords) or any(isinstance(a, ast.Starred) for a in node.args):
+                if any(k.arg is None for k in node.keywords) or any(isinstance(a, ast.Starred) for a in node.args):
+                    return node
+                if not node.keywords and not (node.args and canon._ctor_defaults(node, module)):
                     return node
                 sig = canon._callee_sig(node, module, cls, local_types)
                 if sig is None:
